@@ -130,17 +130,20 @@ def build_corpus(ctx):
     rng = ctx.rng
     thorough = ctx.tier == "thorough"
     out = []
-    pats = irgen_wasm.patterns(random.Random(rng.randrange(1 << 30)), thorough) + irgen_wasm.cast_patterns()
+    pats = (irgen_wasm.patterns(random.Random(rng.randrange(1 << 30)), thorough) + irgen_wasm.cast_patterns()
+            + irgen_wasm.cond_patterns())
     for key, make, fn, ptys, ext in pats:
         prng = random.Random(sum(ord(ch) * (k + 1) for k, ch in enumerate(key)))
-        nv = 8 if thorough else 5
+        nv = 6 if thorough else (2 if key.startswith("cond") else 5)
         vecs = c02.int_vectors(ptys, prng, nv)
         # boundary pairs that overflow the narrow type
         for t in set(ptys):
             lo, hi = (-(1 << (BITS[t] - 1)), (1 << (BITS[t] - 1)) - 1) if t[0] == "i" else (0, (1 << BITS[t]) - 1)
             vecs += [[hi] * len(ptys), [lo] + [hi] * (len(ptys) - 1), [hi, 1][:len(ptys)], [hi // 2 + 1, 2][:len(ptys)]]
+            if key.startswith("cond"):
+                vecs += [[lo, lo], [hi, lo], [5, 5], [4, 5], [5, 4], [lo + 1, lo], [hi - 1, hi]]
         out.append({"key": key, "make": make, "fn": fn, "ptys": ptys, "vecs": vecs, "ext": [], "src": "harness/irgen_wasm.py " + key})
-    for k in range(150 if thorough else 14):
+    for k in range(100 if thorough else 14):
         seed = rng.randrange(1 << 30)
 
         def make(seed=seed):
@@ -156,7 +159,7 @@ def build_corpus(ctx):
         out.append({"key": "arith%d" % seed, "make": make, "fn": info["main"], "ptys": info["params"],
                     "vecs": c02.int_vectors(info["params"], prng, 6 if thorough else 4), "ext": ext,
                     "src": "irgen_wasm.gen_arith(random.Random(%d))" % seed})
-    for k in range(240 if thorough else 40):
+    for k in range(160 if thorough else 40):
         seed = rng.randrange(1 << 30)
 
         def make(seed=seed):
@@ -167,7 +170,7 @@ def build_corpus(ctx):
         prng.shuffle(vecs)
         out.append({"key": "cfg%d" % seed, "make": make, "fn": "f", "ptys": ["i32", "i32"],
                     "vecs": vecs[:8 if thorough else 4], "ext": [], "src": "irgen_wasm.gen_cfg(random.Random(%d))" % seed})
-    for k in range(80 if thorough else 10):
+    for k in range(40 if thorough else 10):
         seed = rng.randrange(1 << 30)
         prng = random.Random(seed)
         prog = absprog.Gen(prng, max_funcs=3, max_stmts=6, max_depth=3, types=["i32"]).program()
